@@ -92,6 +92,9 @@ def main():
                     e['configs'].append(cfg)
                 if s['kind'] in ('panic', 'unwrap'):
                     e.setdefault('when', {})[cfg] = s.get('when')
+                    if s.get('when_term') is not None:
+                        # the condition as a term: lets a textually different condition be proved equal (sa/linarith.terms_equal)
+                        e.setdefault('when_term', {})[cfg] = repr(s['when_term'])
     for k, w in unmatched:
         print('UNMATCHED', w, k[:220])
     json.dump(sorted(out.values(), key=lambda e: e['key']), open('/verif/spec/vetted_sites.json', 'w'), indent=1)
